@@ -52,7 +52,7 @@ func encCfg() zapcore.EncoderConfig {
 
 func build(kind string) *env {
 	e := &env{kind: kind, clock: hx.NewFixedClock()}
-	enc := func() zapcore.Encoder { return zapcore.NewJSONEncoder(encCfg()) }
+	enc := func() zapcore.Encoder { return encFor(kind) }
 	newSink := func() *hx.TornSink { s := &hx.TornSink{}; e.sinks = append(e.sinks, s); return s }
 	var core zapcore.Core
 	switch kind {
@@ -60,7 +60,7 @@ func build(kind string) *env {
 		core = zapcore.NewCore(enc(), zapcore.Lock(newSink()), zap.DebugLevel)
 	case "combine":
 		core = zapcore.NewCore(enc(), zap.CombineWriteSyncers(newSink(), newSink()), zap.DebugLevel)
-	case "lockreflect":
+	case "lockreflect", "lockconsole":
 		core = zapcore.NewCore(enc(), zapcore.Lock(newSink()), zap.DebugLevel)
 	case "combine1": // a single destination must be serialised just like several
 		core = zapcore.NewCore(enc(), zap.CombineWriteSyncers(newSink()), zap.DebugLevel)
@@ -145,10 +145,34 @@ func doOp(e *env, op byte, thr, idx int) {
 func isLog(op byte) bool { return op != 'Y' && op != 'K' }
 
 // expected line of one op, computed sequentially on a fresh logger with a plain sink
+// ys is printed by fmt while the console encoder assembles its columns; its
+// String method is a scheduling point.
+type ys struct{ s string }
+
+func (y ys) String() string { vsched.Yield(); return y.s }
+
+// encFor: JSON for every family but "lockconsole", whose console encoder has a
+// time column rendered by user code (a Stringer that yields).
+func encFor(kind string) zapcore.Encoder {
+	if kind != "lockconsole" {
+		return zapcore.NewJSONEncoder(encCfg())
+	}
+	cfg := zap.NewDevelopmentEncoderConfig()
+	// the FIRST column is rendered by user code (so the later columns are read after the scheduling point)
+	cfg.EncodeTime = func(t time.Time, e zapcore.PrimitiveArrayEncoder) {
+		if ae, ok := e.(zapcore.ArrayEncoder); ok {
+			_ = ae.AppendReflected(ys{t.UTC().Format(time.RFC3339)})
+			return
+		}
+		e.AppendString(t.UTC().Format(time.RFC3339))
+	}
+	return zapcore.NewConsoleEncoder(cfg)
+}
+
 func expectedLine(kind string, op byte, thr, idx int) string {
 	var buf bytes.Buffer
 	clock := hx.NewFixedClock()
-	core := zapcore.NewCore(zapcore.NewJSONEncoder(encCfg()), zapcore.AddSync(&buf), zap.DebugLevel)
+	core := zapcore.NewCore(encFor(kind), zapcore.AddSync(&buf), zap.DebugLevel)
 	e := &env{logger: withBase(kind, zap.New(core, zap.WithClock(clock))), clock: clock}
 	doOp(e, op, thr, idx)
 	return buf.String()
@@ -291,7 +315,13 @@ func main() {
 	progs := []string{"I", "B", "S", "C", "W", "II", "IB", "BI", "SW", "CW", "WI"}
 	singles := []string{"I", "B", "W", "C"}
 	var items []string
-	for _, kind := range []string{"lock", "combine", "combine1", "open", "open1", "buffered", "tee", "teebuf", "lockreflect"} {
+	for _, kind := range []string{"lock", "combine", "combine1", "open", "open1", "buffered", "tee", "teebuf", "lockreflect", "lockconsole"} {
+		if kind == "lockconsole" {
+			for _, pq := range []string{"I;I", "I;W", "I;C", "W;S", "II;I", "I;W;C", "IW;S"} {
+				items = append(items, fmt.Sprintf("c04|%s|%d|%s", kind, pre, pq))
+			}
+			continue
+		}
 		if kind == "lockreflect" {
 			for _, pq := range []string{"R;R", "R;I", "R;W", "RR;R", "R;R;R", "RI;R"} {
 				items = append(items, fmt.Sprintf("c04|%s|%d|%s", kind, pre, pq))
